@@ -18,6 +18,7 @@ import (
 	"verif/checks/c15"
 	"verif/checks/c19"
 	"verif/checks/c16"
+	"verif/checks/c17"
 	"verif/checks/c18"
 	"verif/checks/c20"
 	"verif/engine/ev"
@@ -41,6 +42,7 @@ func main() {
 		"C12": c12.Check,
 		"C13": c13.Check,
 		"C16": c16.Check,
+		"C17": c17.Check,
 		"C18": c18.Check,
 		"C20": c20.Check,
 	})
